@@ -53,9 +53,16 @@ func TestVerifHarness(t *testing.T) {
 			continue
 		}
 		n++
-		res, err := verifGuard(h, json.RawMessage(append([]byte(nil), line...)))
-		if err != nil {
-			res = map[string]interface{}{"harness_error": err.Error()}
+		var res interface{}
+		if verifAbort != "" {
+			// the code under test left something running away (see verifAbort): the remaining cases are not run
+			res = map[string]interface{}{"skipped": verifAbort}
+		} else {
+			var err error
+			res, err = verifGuard(h, json.RawMessage(append([]byte(nil), line...)))
+			if err != nil {
+				res = map[string]interface{}{"harness_error": err.Error()}
+			}
 		}
 		if e := enc.Encode(res); e != nil {
 			t.Fatal(e)
@@ -64,7 +71,16 @@ func TestVerifHarness(t *testing.T) {
 	if err := sc.Err(); err != nil {
 		t.Fatal(err)
 	}
+	if verifAbort != "" {
+		w.Flush()
+		fout.Close()
+		os.Exit(0) // a runaway goroutine cannot be stopped; leave before it exhausts the machine
+	}
 }
+
+// verifAbort is set by a mode when the code under test started something that cannot be stopped (a goroutine that
+// allocates without bound): the remaining inputs are answered {"skipped": reason} and the process exits.
+var verifAbort string
 
 // verifGuard turns a panic of the code under test into an observation.
 func verifGuard(h verifHandler, raw json.RawMessage) (res interface{}, err error) {
